@@ -193,6 +193,73 @@ def run(facts, tier, ctx):
                             % (e.id, path_str(e, bad_path) if bad_path else "")), dict(sample, verdict="FAIL"))
     r3.require_floor(want, "stream encoders")
     out.append(r3)
+    # ------------------------------------------------------------ RANGE/block-size argument
+    # the requested block size becomes both STREAMINFO bounds; on every Ok path of an encoder it has been verified to lie
+    # in the documented range (in particular >= 16), in the encoder itself or in a `?`-checked callee.
+    from . import lib_effect as E
+    ra = RuleResult("RANGE/block-size-argument", "on every Ok path of a stream encoder the block_size argument was verified "
+                    "to be >= 16 and <= 65535")
+    for e in encs:
+        ectx = E.Ctx(facts)
+        ectx.open_loops = True
+        ectx.collect_asserts = True
+        ectx.noinline = [r"^coding::encode_fixed", r"feed_fixed", r"Context::new$", r"ParContext::", r"^par::encode_with"]
+        it = E.Interp(ectx, e)
+        try:
+            it.run()
+        except E.Undecided as ex:
+            ra.fail(Finding("RANGE/block-size-argument", e.id, "undecided", 0, e.loc(), str(ex)))
+            continue
+        # block_size parameter: the usize parameter handed to set_block_sizes
+        bsp = None
+        for bi, t in e.calls():
+            if is_setbs(t):
+                from .lib_expr import expr as lexpr
+                a = lexpr(e, t["args"][1])
+                if a[0] == "p" and not a[2]:
+                    bsp = a
+        lo = hi = None
+        oks_here = [r for r in ectx.ok_returns if r[0] == e.id]
+        if len(oks_here) != 1:
+            ra.fail(Finding("RANGE/block-size-argument", e.id, "ok-returns", 0, e.loc(), "expected one `Ok(stream)` site, found %d"
+                            % len(oks_here)))
+            continue
+        for f in oks_here[0][2]:
+            if f[0] == "ifnonempty" and f[3] == 1:
+                # established in every iteration of a loop over the frame-buffer pool, whose size is the worker count times a
+                # constant; the worker count is non-zero (C06 WORKERS/non-zero)
+                d = f[1]
+                if not (d[0] == "range" and E.is_c(E.strip_casts(d[2]), 0) and "determine_worker_count" in E.canon(d[3])):
+                    continue
+                f = ("cond", f[2], 1)
+            if f[0] != "cond" or f[2] != 1:
+                continue
+            c = E.strip_casts(f[1])
+            if not (isinstance(c, tuple) and c[0] == "bin"):
+                continue
+            a, b = E.strip_casts(c[2]), E.strip_casts(c[3])
+            if bsp is not None and a == bsp and E.is_c(b):
+                if c[1] == "Ge":
+                    lo = b[1] if lo is None else max(lo, b[1])
+                if c[1] == "Gt":
+                    lo = b[1] + 1 if lo is None else max(lo, b[1] + 1)
+                if c[1] == "Le":
+                    hi = b[1] if hi is None else min(hi, b[1])
+                if c[1] == "Lt":
+                    hi = b[1] - 1 if hi is None else min(hi, b[1] - 1)
+        sample = {"encoder": e.id, "verified_range": [lo, hi]}
+        if e.id.startswith("coding::") and facts.tag != "F0" and bsp is not None and lo is None:
+            # the single-thread entry dispatches to the par encoder first; its own path is judged below the dispatch
+            pass
+        if bsp is not None and lo is not None and lo >= 16 and hi is not None and hi <= 65535:
+            ra.ok(dict(sample, verdict="ok"))
+        else:
+            ra.fail(Finding("RANGE/block-size-argument", e.id, "block-size-not-range-checked", 0, e.loc(),
+                            "on the Ok paths of %s the block_size argument is only known to lie in [%s, %s]: a value below 16 "
+                            "(or above 65535) would be written into STREAMINFO as minimum/maximum block size"
+                            % (e.id, lo, hi)), dict(sample, verdict="FAIL"))
+    ra.require_floor(want, "stream encoders")
+    out.append(ra)
     return out
 
 
